@@ -27,6 +27,9 @@ require (
 	golang.org/x/sys v0.32.0 // indirect
 	golang.org/x/text v0.24.0 // indirect
 	gopkg.in/yaml.v2 v2.4.0 // indirect
+	verifsched v0.0.0
 )
 
 replace github.com/ogen-go/ogen => /repo
+
+replace verifsched => ./drivers/verifsched
